@@ -141,7 +141,7 @@ def predicate(case, stats):
     fails = []
     props = dict(model.properties or {})
     # property python names as the *built* model has them (the parser derives them from the JSON name)
-    by_source = {(p.source or n): n for n, p in props.items()}
+    by_source = {(p.source if p.source is not None else n): n for n, p in props.items()}
     recipe_props = case["recipe"]["props"]
     has_pattern = bool(case["recipe"].get("sub", {}).get("patternProperties"))
     suppliable = []
